@@ -186,6 +186,8 @@ class Executor:
         self.stats = dict(paths=0, forks=0, solver_checks=0, solver_time=0.0, unsupported=0)
         self.on_call = None  # hook(state, callee, args) -> None | value
         self.coroutine_bodies = {}
+        self.async_inline = []
+        self.pure = []  # uninterpreted callees assumed not to modify what their &mut arguments point to
         self.type_modules = {}
         self._by_method = {}
         for name, bl in bodies.items():
@@ -1079,12 +1081,20 @@ class Executor:
                         return None
                     return outs
                 return self.finish_call(st, dest, r, ret_bb, callee, args, log=False)
+        for pat, cbody in self.async_inline:
+            if pat.search(callee):
+                ty = "coroutine:" + cbody.name
+                self.coroutine_bodies[ty] = cbody
+                return self.finish_call(st, dest, EnumV(ty, None, 0, {}, list(args)), ret_bb, callee, args)
         body = self.resolve_callee(callee, args)
         if body is not None and fr.depth < self.max_depth:
             return self.push_frame(st, body, args, dest, ret_bb)
         # uninterpreted
         res = self.fresh("ret:" + self.strip_generics(callee).split("::")[-1], dest_ty)
+        frame_preserving = any(re.search(p, callee) for p in self.pure)
         for a in args:
+            if frame_preserving:
+                break
             if isinstance(a, Ref) and a.mut:
                 try:
                     old = self.get_path(a.cell, a.path)
